@@ -550,10 +550,12 @@ PROP.LEVEL_TEXT = (
     "with a one-task-step-at-a-time event loop and requiring the model, fed the same schedule, to reproduce the exact "
     "connector call log, request outcomes and set of blocked tasks.")
 PROP.LEVEL_NOTE = (
-    "Model fidelity: the executable model cuts an atomic stretch after fuel0=2000 micro-steps (state marked bad); the "
-    "unbounded theorems are about the log of every model execution and do not conclude bad=false (witness: "
-    "C26_fuel_cut_refuted); the bounded families and the correspondence run do. The depth-40 chain family is a single "
-    "run per depth. Trusted: Coq kernel + vm_compute; the hand-written model (tied to the code only by the correspondence run); asyncio "
+    "Model fidelity: the executable model cuts an atomic stretch after fuel0=2000 micro-steps (state marked bad, witness "
+    "C26_fuel_cut_refuted); therefore the unbounded results are ALSO stated on fuel-free micro-level executions "
+    "(Deploy/Micro.v: C26_*_micro), which the executable step/run refine whenever not cut (C26_step_refines_micro); "
+    "the bounded families and the correspondence run check bad=false. wrap_order on chains is bounded (depth<=40 single "
+    "run per depth; depth<=6 with undeploy_all; 651 request sets at depth 4): the arbitrary-depth proof is not done. "
+    "Trusted: Coq kernel + vm_compute; the hand-written model (tied to the code only by the correspondence run); asyncio "
     "semantics assumed by the model (Event, sleep(0), gather, atomicity between awaits); the controlled event loop and "
     "fake connectors. Missing for a full proof: an inductive invariant over the frame stacks of all tasks (general "
     "return_after / wrap_order / once-for-eager); wraps=None (__LOCAL__) is outside the model. No axioms.")
